@@ -21,10 +21,16 @@ type guardFamily struct {
 	unlock  []string
 	helpers []string // functions that expect the mutex to be held by the caller (their calls are accesses)
 	sinks   []string // call names (suffix match) that count as accesses (gate family: issuing / loading calls)
+	writesOnly bool  // only map writes and deletes count as accesses (with lock = the EXCLUSIVE lock only: no write under a read lock)
 }
 
 var guardFamilies = []guardFamily{
 	{id: "cache", state: []string{"cache", "cacheIndex"}, lock: []string{".mu.Lock", ".mu.RLock"}, unlock: []string{".mu.Unlock", ".mu.RUnlock"},
+		files:   []string{"cache.go", "maintain.go", "handshake.go", "certificates.go", "config.go"},
+		helpers: []string{"unsyncedCacheCertificate", "removeCertificate"}},
+	// the same maps once more, writes only, against the EXCLUSIVE lock only (RLock/RUnlock are
+	// not part of this family's vocabulary): nobody writes while holding merely the read lock
+	{id: "cachew", state: []string{"cache", "cacheIndex"}, lock: []string{".mu.Lock"}, unlock: []string{".mu.Unlock"}, writesOnly: true,
 		files:   []string{"cache.go", "maintain.go", "handshake.go", "certificates.go", "config.go"},
 		helpers: []string{"unsyncedCacheCertificate", "removeCertificate"}},
 	{id: "loadwait", state: []string{"certLoadWaitChans"}, lock: []string{"certLoadWaitChansMu.Lock"}, unlock: []string{"certLoadWaitChansMu.Unlock"}, files: []string{"handshake.go"}},
@@ -44,6 +50,7 @@ var guardFamilies = []guardFamily{
 		files: []string{"handshake.go"},
 		sinks: []string{".ObtainCertAsync", ".ObtainCertSync", ".RenewCertAsync", ".RenewCertSync", ".forceRenew", ".loadManagedCertificate",
 			".CacheManagedCertificate", ".reloadManagedCertificate"}},
+	{id: "ratelimitersw", state: []string{"rateLimiters"}, lock: []string{"rateLimitersMu.Lock"}, unlock: []string{"rateLimitersMu.Unlock"}, writesOnly: true, files: []string{"acmeclient.go"}},
 	{id: "ratelimiters", state: []string{"rateLimiters"}, lock: []string{"rateLimitersMu.Lock", "rateLimitersMu.RLock"}, unlock: []string{"rateLimitersMu.Unlock", "rateLimitersMu.RUnlock"}, files: []string{"acmeclient.go"}},
 }
 
@@ -107,6 +114,8 @@ func genGuard(p *pkgInfo, l *leanFile) {
 					return `(.act "lock")`
 				case hasSuffixAny(name, fam.unlock):
 					return `(.act "unlock")`
+				case famHasState && fam.writesOnly && (strings.HasPrefix(name, "mapread:") || strings.HasPrefix(name, "maprange:") || strings.HasPrefix(name, "field:")):
+					return m // a read: inert for this family
 				case famHasState && (strings.HasPrefix(name, "mapread:") || strings.HasPrefix(name, "mapwrite:") || strings.HasPrefix(name, "mapdelete:") ||
 					strings.HasPrefix(name, "maprange:") || strings.HasPrefix(name, "field:")):
 					touches = true
